@@ -614,12 +614,15 @@ class Machine:
         return ()
 
     def ev_loop(self, e):
-        try:
-            self.ev(e["body"])
-        except _Break as b:
-            return b.value
-        except _Continue:
-            pass
+        # the body is walked `unroll` times (default once): enough to see what the second round of a path walker does with the state
+        # the first round left behind
+        for _ in range(max(1, getattr(self.ex, "unroll", 1))):
+            try:
+                self.ev(e["body"])
+            except _Break as b:
+                return b.value
+            except _Continue:
+                pass
         return Sym("?loop")
 
     def ev_ret(self, e):
@@ -690,8 +693,9 @@ def _has_sym(v):
 class Exec:
     """ex = Exec(F); for result, events in ex.paths(body_hir, {param index: value}): ..."""
 
-    def __init__(self, F, max_depth=4, max_paths=600, opaque=()):
+    def __init__(self, F, max_depth=4, max_paths=600, opaque=(), unroll=1):
         self.F = F
+        self.unroll = unroll
         self.max_depth = max_depth
         self.max_paths = max_paths
         self.opaque = set(opaque)     # crate functions not to follow
